@@ -9,6 +9,7 @@
 //	ref      contextRefName / pathToPackage on scope configs      <-> J5V.Print.RefName
 //	opt      option value tree -> text-format literal            <-> J5V.Print.OptionText
 //	ord      sourceElements.Less / sort, option sort              <-> J5V.Print.Order
+//	file     the whole PrintFile on descriptor summaries          <-> J5V.Print.Layout (+ Grammar)
 //
 // See /verif/harness/PROTOCOL-print.md for the line protocol.
 package main
@@ -39,6 +40,8 @@ func main() {
 		vh.Main("print.opt", optImpl{})
 	case "ord":
 		vh.Main("print.ord", ordImpl{})
+	case "file":
+		vh.Main("print.file", &fileImpl{})
 	default:
 		vh.Main("print.reparse", &reparseImpl{})
 	}
